@@ -16,7 +16,8 @@ EXPLANATION = ("Static provenance analysis of mc::bmc::get_witness, mc::utils::g
 ASSUMPTIONS = ["the solver's model satisfies the query it answered sat to", "model-value parsing is correct (C14, partially decided)"]
 LEVEL_TEXT = ("Static value-provenance and ordering analysis of the witness extraction code on all paths; decides the structural clauses "
               "(right signal, right step, right polarity, complete and ordered lists) that a real counterexample rests on. No test executes this code offline. "
-              "Replay semantics of the produced witness are not decided.")
+              "Replay semantics of the produced witness are not decided."
+              " The per-step loop must be unconditional (the number of vectors is the trace length), and an edited copy of the bad-state list is not the system's list (positions).")
 LEVEL_NOTE = "Assumes solver models are correct and get_signal_at/get_value do what their names say; decides shape, not values."
 TECHNIQUE = "value-provenance (def-use) and region/dominance rules on rustc HIR facts; the BMC loop-shell rules of C02 (constraints asserted before every query, queried bad states, pairing) are evaluated as prerequisites"
 
